@@ -4,14 +4,14 @@
 D=$(readlink -f "$1"); TIER=$2; shift 2
 cd "$(dirname "$0")/.." || exit 3
 WT=$(mktemp -d /tmp/mutwt-XXXXXX); rmdir "$WT"
-git -C /repo worktree add -q --detach "$WT" HEAD || exit 3
+flock /tmp/.verif-worktree.lock git -C /repo worktree add -q --detach "$WT" HEAD || exit 3
 OUT=$(mktemp -d /tmp/mutout-XXXXXX)
-if ! git -C "$WT" apply "$D"; then echo "PATCH-DOES-NOT-APPLY $D"; git -C /repo worktree remove --force "$WT"; exit 3; fi
+if ! git -C "$WT" apply "$D"; then echo "PATCH-DOES-NOT-APPLY $D"; flock /tmp/.verif-worktree.lock git -C /repo worktree remove --force "$WT"; exit 3; fi
 for p in "$@"; do
   VERIF_STOP_ON_FIRST=${VERIF_STOP_ON_FIRST-1} VERIF_REPO="$WT" VERIF_EVIDENCE_DIR="$OUT/ev" VERIF_REPLAY_DIR="$OUT/replays" VERIF_JOBS=${VERIF_JOBS:-16} ./check $p --tier $TIER > "$OUT/$p.log" 2>&1
   rc=$?
   echo "$p rc=$rc $(grep -c '^VIOLATION' "$OUT/$p.log") violations; $(grep -A1 '^VIOLATION' "$OUT/$p.log" | sed -n 2p | cut -c1-200)"
   grep -E '^HARNESS-ERROR' "$OUT/$p.log" | head -2 | cut -c1-250
 done
-git -C /repo worktree remove --force "$WT"
+flock /tmp/.verif-worktree.lock git -C /repo worktree remove --force "$WT"
 rm -rf "$OUT"
